@@ -17,14 +17,14 @@ Proof.
   - cbn [snd]. intros [H|[]]. discriminate.
 Qed.
 
-Theorem close_frees_id s h i : cinv s -> (h < length (chans s))%nat ->
+Theorem close_frees_id s h i hs : cinv s -> (h < length (chans s))%nat ->
   ch_state (getc s h) = Open -> ch_id (getc s h) = Some i ->
   established s = true -> rq_request s = None -> rq_queue s = [] ->
-  let s1 := fst (step s (IClose h)) in
+  let s1 := fst (step s (IClose h hs)) in
   let s2 := fst (step s1 ITransmitReconfig) in
   let s3 := fst (step s2 (IResetResponse (rq_req_seq s))) in
   (* close(): closing, a RE-CONFIG task is scheduled; the task sends the reset request for stream i *)
-  ch_state (getc s1 h) = Closing /\ snd (step s (IClose h)) = [EvSchedReconfig] /\
+  ch_state (getc s1 h) = Closing /\ snd (step s (IClose h hs)) = [EvSchedReconfig] /\
   snd (step s1 ITransmitReconfig) = [EvReconfigRequest (rq_req_seq s) [i]] /\
   (* the peer's response: closed, `close` event, id unregistered and usable again *)
   ch_state (getc s3 h) = Closed /\ snd (step s2 (IResetResponse (rq_req_seq s))) = [EvClose h] /\
@@ -34,11 +34,11 @@ Proof.
   intros (W & B & T) Hh Hst Hid He Hrq Hq. cbv zeta.
   assert (Hlt : Nat.ltb h (length (chans s)) = true) by (apply Nat.ltb_lt; exact Hh).
   (* step 1 *)
-  assert (E1 : step s (IClose h) =
+  assert (E1 : step s (IClose h hs) =
                (mkSt true (dc_id s) (upd (chans s) h (with_state (getc s h) Closing)) (table s) (queue s) [i] None (rq_req_seq s) (rq_resp_seq s),
                 [EvSchedReconfig])).
   { cbn [step]. rewrite Hlt. unfold chan_close. rewrite Hst. unfold close_body, set_ready. rewrite Hst.
-    cbn [rstate_eqb rank Z.eqb Pos.eqb]. cbv beta iota zeta. cbn [setc established]. rewrite He, Hid.
+    cbn [rstate_eqb rank Z.eqb Pos.eqb]. cbv beta iota zeta. cbn [setc established]. rewrite He, Hid. cbn [orb].
     cbn [setc dc_id chans table queue rq_queue rq_request rq_req_seq rq_resp_seq]. rewrite Hq, Hrq. reflexivity. }
   rewrite E1. cbn [fst snd].
   set (s1 := mkSt true (dc_id s) (upd (chans s) h (with_state (getc s h) Closing)) (table s) (queue s) [i] None (rq_req_seq s) (rq_resp_seq s)).
@@ -69,4 +69,59 @@ Proof.
   assert (Ht3 : tget (tdel (table s) i) i = None) by (rewrite tget_tdel, Z.eqb_refl; reflexivity).
   split; [exact Ht3|].
   intros neg ordered maxrt maxlt label proto. apply create_free_id. exact Ht3.
+Qed.
+
+(* ---------------------------------------------------------------- close() while the association is being set up *)
+Definition rqf (s : st) := (established s, rq_queue s, rq_request s, rq_req_seq s).
+
+Lemma set_ready_rqf s h r : rqf (fst (set_ready s h r)) = rqf s.
+Proof. unfold set_ready. destruct (rstate_eqb _ _); reflexivity. Qed.
+
+Lemma open_negotiated_rqf : forall t s, rqf (fst (open_negotiated s t)) = rqf s.
+Proof.
+  induction t as [|[k h] t IH]; intros s; cbn [open_negotiated]; [reflexivity|].
+  set (p := if ch_neg (getc s h) && rstate_eqb (ch_state (getc s h)) Connecting then set_ready s h Open else (s, [])).
+  rewrite (pair_eta p). rewrite (pair_eta (open_negotiated (fst p) t)). cbn [fst]. rewrite IH.
+  unfold p. destruct (_ && _); [apply set_ready_rqf|reflexivity].
+Qed.
+
+(* The peer opened the channel (it has an id and is registered) but this end's association is
+   still in COOKIE_WAIT / COOKIE_ECHOED.  close() must not forget the channel locally - the peer
+   would keep it open for ever: the stream reset is queued, and sent once the association is up. *)
+Theorem close_during_handshake s h i : (h < length (chans s))%nat ->
+  rank (ch_state (getc s h)) <= 1 -> ch_id (getc s h) = Some i ->
+  established s = false -> rq_request s = None -> rq_queue s = [] ->
+  let s1 := fst (step s (IClose h true)) in
+  let s2 := fst (step s1 IEstablished) in
+  ch_state (getc s1 h) = Closing /\ table s1 = table s /\ rq_queue s1 = [i] /\
+  (* becoming established schedules the RE-CONFIG task, which requests the reset of stream i *)
+  In EvSchedReconfig (snd (step s1 IEstablished)) /\
+  snd (step s2 ITransmitReconfig) = [EvReconfigRequest (rq_req_seq s) [i]].
+Proof.
+  intros Hh Hr Hid He Hrq Hq. cbv zeta.
+  assert (Hlt : Nat.ltb h (length (chans s)) = true) by (apply Nat.ltb_lt; exact Hh).
+  assert (Hcc : chan_close s h true = close_body s h true).
+  { unfold chan_close. destruct (ch_state (getc s h)); try reflexivity; cbn in Hr; lia. }
+  pose proof (set_ready_rqf s h Closing) as R1. pose proof (set_ready_table s h Closing) as T1.
+  assert (G1 : ch_state (getc (fst (set_ready s h Closing)) h) = Closing).
+  { rewrite getc_set_ready, Nat.eqb_refl, Hlt. cbn [andb].
+    destruct (rstate_eqb (ch_state (getc s h)) Closing) eqn:E; cbn [negb]; [now apply rstate_eqb_eq in E|reflexivity]. }
+  assert (E1 : fst (step s (IClose h true)) =
+               let s1 := fst (set_ready s h Closing) in
+               mkSt (established s1) (dc_id s1) (chans s1) (table s1) (queue s1) (rq_queue s1 ++ [i]) (rq_request s1) (rq_req_seq s1) (rq_resp_seq s1)).
+  { cbn [step]. rewrite Hlt, Hcc. unfold close_body. rewrite (pair_eta (set_ready s h Closing)).
+    rewrite orb_true_r, Hid. reflexivity. }
+  rewrite E1. cbv zeta. set (s0 := fst (set_ready s h Closing)) in *.
+  unfold rqf in R1. injection R1 as Re Rq Rr Rs. rewrite Rq, Hq. cbn [app].
+  set (s1 := mkSt (established s0) (dc_id s0) (chans s0) (table s0) (queue s0) [i] (rq_request s0) (rq_req_seq s0) (rq_resp_seq s0)).
+  split; [exact G1|]. split; [exact T1|]. split; [reflexivity|].
+  cbn [step]. unfold set_established.
+  set (s1e := mkSt true (dc_id s1) (chans s1) (table s1) (queue s1) (rq_queue s1) (rq_request s1) (rq_req_seq s1) (rq_resp_seq s1)).
+  rewrite (pair_eta (open_negotiated s1e (table s1e))). cbn [fst snd].
+  pose proof (open_negotiated_rqf (table s1e) s1e) as R2. unfold rqf in R2. injection R2 as Re2 Rq2 Rr2 Rs2.
+  cbn [established rq_queue rq_request rq_req_seq s1e s1] in Re2, Rq2, Rr2, Rs2.
+  change (table s1e) with (table s0).
+  split.
+  - rewrite Rq2. apply in_or_app. right. right. left. reflexivity.
+  - unfold transmit_reconfig. rewrite Rr2, Rr, Hrq, Re2, Rq2, Rs2, Rs. reflexivity.
 Qed.
